@@ -161,6 +161,7 @@ type world struct {
 	hashes      [][]byte
 	seed        [2]*seedData
 	subByID     map[string]*sub
+	strayRoot   *pki.Cert
 	seedTS      map[string]uint64
 }
 
@@ -204,6 +205,7 @@ func newWorld() *world {
 	for i := 0; i < 3; i++ {
 		w.fresh = append(w.fresh, mk(fmt.Sprintf("pre%d", i), true))
 	}
+	w.strayRoot = pki.NewRoot("C08 Untrusted Root", pki.LoadKey("p256-8"))
 	for i, s := range w.seeds {
 		ts := millis(seedTime.Add(time.Duration(i) * time.Second))
 		w.seedTS[s.id] = ts
@@ -213,6 +215,17 @@ func newWorld() *world {
 		w.hashes = append(w.hashes, merkle.LeafHash(li))
 	}
 	return w
+}
+
+// strayChain is a well-formed chain to a root the log does not trust.
+func (w *world) strayChain(pre bool) [][]byte {
+	aki := w.strayRoot.T.Key.KeyHash()
+	exts := []pki.Ext{pki.ExtSAN("stray.example"), pki.ExtAKI(aki[:20])}
+	if pre {
+		exts = append(exts, pki.ExtPoison())
+	}
+	l := pki.NewLeaf("stray", pki.LoadKey("p256-3"), w.strayRoot, pki.LeafOpts{Exts: exts, Serial: []byte{0x7f, 0x01}})
+	return [][]byte{l.DER, w.strayRoot.DER}
 }
 
 // instance is one front end over one backend, built fresh for every sequence.
